@@ -275,6 +275,11 @@ impl<C: ConfigurationAccess> PciRoot<C> {
             let size_top = if size_mask == 0 { 0 } else { 0xffffffff };
             (0, size_top)
         };
+        // An I/O BAR may implement only 16 address bits and hardwire the upper 16 to zero; those
+        // bits are then not part of the size.
+        if io_space && size_mask & 0x0000_fffc != 0 && size_mask & 0xffff_0000 == 0 {
+            size_mask |= 0xffff_0000;
+        }
         size_mask |= u64::from(size_top) << 32;
 
         // For IO BARs bits 2 and 3 can be part of the address.
